@@ -103,6 +103,12 @@ func (o *c37) step(line string) string {
 		h, _ := strconv.Atoi(f[1])
 		p, _ := strconv.Atoi(f[2])
 		if vb := s.blocks[h]; out == "ok" && vb != nil && p == vb.parent && o.extendsAccepted(h) && vb.blk.Height > s.blocks[s.lastH].blk.Height {
+			// the bounded ancestor walk (and with it every ancestor clause of C37) relies on timestamps
+			// increasing along a verified chain; Verify itself has to enforce it
+			if pb := s.blocks[vb.parent]; vb.blk.Timestamp <= pb.blk.Timestamp {
+				o.v.r.Violation("verify-accepts-block-not-after-parent",
+					"block %d (timestamp %d) verifies on its parent %d (timestamp %d): %s", h, vb.blk.Timestamp, vb.parent, pb.blk.Timestamp, line)
+			}
 			o.check("verify-accepts", h, line)
 			o.v.r.Distinct(fmt.Sprintf("%d@%d:%v", vb.blk.Height, vb.blk.Timestamp, vb.certIdx))
 		}
@@ -110,7 +116,8 @@ func (o *c37) step(line string) string {
 	case "build":
 		out := o.v.do("%s", line)
 		h, _ := strconv.Atoi(f[1])
-		if vb := s.blocks[h]; strings.HasPrefix(out, "ok") && vb != nil && o.extendsAccepted(h) {
+		// the builder is only ever asked to build on a verified (preferred) parent
+		if vb := s.blocks[h]; strings.HasPrefix(out, "ok") && vb != nil && s.blocks[vb.parent].verified && o.extendsAccepted(h) {
 			o.check("builder-produces", h, line)
 		}
 		return out
@@ -170,6 +177,10 @@ func TestVerifC37(t *testing.T) {
 		"mk 3 2 10 3 4", "verify 3 2", "accept 1", "accept 2", "verify 3 2", "mk 4 2 10 3 4 2", "verify 4 2", "build 5 2 10",
 		vCfg(4, 1000000), "addlocal 4 c", "addlocal 2 c", "mk 1 0 6 1 4", "verify 1 0", "mk 2 1 7 2 2x", "verify 2 1",
 		"mk 3 1 7 2 2", "verify 3 1", "mk 4 3 10 3 4", "verify 4 3", "mk 5 3 11 3 4", "verify 5 3",
+		// timestamp dip on a processing chain: A (6, chunk 4, expiry 10), B below A but above the accepted
+		// tip, C more than a window after B re-using chunk 4: the walk from C would stop at B
+		vCfg(4, 1000000), "addlocal 4 c", "addlocal 1 c", "addlocal 10 c", "mk 1 0 6 1 4", "verify 1 0", "mk 2 1 1 2 1", "verify 2 1",
+		"mk 3 2 6 3 4", "verify 3 2", "mk 4 1 6 2 10", "verify 4 1", "build 5 2 7",
 		// a block on an unverified parent: the chain index has no parent
 		vCfg(8, 1000000), "addlocal 1 c", "mk 1 0 0 1 1", "verify 1 0", "mk 2 1 2 2 1", "verify 2 1",
 		// validators sign references that do not match the chunk they are shown
@@ -228,6 +239,8 @@ func TestVerifC37(t *testing.T) {
 					if ts < 0 {
 						ts = 0
 					}
+				} else if at := blocks[accTip].ts; par != accTip && pb.ts > at+1 && rng.Chance(8) {
+					ts = at + 1 + rng.Intn(pb.ts-at) // not after the processing parent, but after the accepted tip
 				}
 				ht := pb.height + 1
 				if rng.Chance(3) {
